@@ -15,6 +15,7 @@ pub mod c13_txrecovery;
 pub mod c14_vault;
 pub mod c15_parser;
 pub mod c16_chain;
+pub mod c17_manager;
 pub mod c17_merge;
 pub mod c18_paths;
 pub mod c19_blob;
@@ -39,6 +40,7 @@ pub fn all() -> Vec<(&'static str, RunFn, ReplayFn)> {
         ("c14_vault", c14_vault::run, c14_vault::replay),
         ("c15_parser", c15_parser::run, c15_parser::replay),
         ("c16_chain", c16_chain::run, c16_chain::replay),
+        ("c17_manager", c17_manager::run, c17_manager::replay),
         ("c17_merge", c17_merge::run, c17_merge::replay),
         ("c18_paths", c18_paths::run, c18_paths::replay),
         ("c19_blob", c19_blob::run, c19_blob::replay),
